@@ -63,7 +63,9 @@ def gen_c05(ctx):
     """histories of outcomes preceding a SILENT request"""
     out = []
     hist = {'success': 'N', 'exhausted': None, 'rejected': 'X', 'error': 'R', 'late-error': 'r', 'closed': 'C', 'send-error': 'E',
-            'garbage-then-ok': 'gN', 'success-after-1': 'DN', 'success-after-2': 'DDN', 'fragment-then-ok': 'HN', 'dup': 'U'}
+            'garbage-then-ok': 'gN', 'success-after-1': 'DN', 'success-after-2': 'DDN', 'fragment-then-ok': 'HN', 'dup': 'U',
+            'rejected-after-1': 'DX', 'rejected-after-2': 'DDX', 'error-after-1': 'DR', 'late-error-after-1': 'Dr', 'closed-after-1': 'DC',
+            'rejected-after-garbage': 'GX', 'send-error-after-1': 'DE'}
     for (k, ka, r) in configs(ctx.deep):
         items = list(hist.items())
         combos = [(a,) for a in items] + ([(a, b) for a in items for b in items] if ctx.deep else
@@ -72,7 +74,7 @@ def gen_c05(ctx):
             letters, n = '', 0
             for name, l in combo:
                 if l is None: l = 'D' * (r + 1)
-                elif name.startswith('success-after') and len(l) - 1 > r: l = 'N'
+                elif '-after-' in name and len(l) - 1 > r: l = l[-1]
                 letters += l; n += 1
             sc = base(k, ka, r, letters, default='D', phases=[seq_reqs(n + 1)])
             sc['history'] = [c[0] for c in combo]
@@ -96,6 +98,14 @@ def gen_c06(ctx):
     for ls in itertools.product(faults, repeat=3):
         for k in ('udp', 'tcp'):
             out.append(base(k, ctx.rng.random() < 0.5, 2, ''.join(ls), default='N', phases=[[req(0, 0), req(1, 0), req(2, 300)]]))
+    # a lost transmission, and a caller whose call STARTS while the retransmission is waiting for its (late) answer
+    for k in ('udp', 'tcp'):
+        for ka in (False, True):
+            for late in (0.6, 0.8):
+                for start3 in (1100, 1200, 1400, 1550):
+                    out.append(base(k, ka, 2, ['D', dict(late=late)], default='N',
+                                    phases=[[req(0, 0, count=2), req(1, 500, reg=300, count=2), req(2, start3, reg=500, count=2)]]))
+                    out.append(base(k, ka, 2, ['D', dict(late=late)], default='N', phases=[[req(0, 0, count=2), req(1, start3, reg=300, count=2)]]))
     # a fragmented answer followed by answers that are late but in time (anything armed for the first request and not disarmed
     # fires inside the later requests), three queued callers
     for k in ('udp', 'tcp'):
